@@ -87,7 +87,7 @@ def g5_name_atomic(ctx, g, prefix):
         parts = g.seq_of("macro_name")
         head = g.first(parts[0]) if parts else set()
         ctx.check(("class", "XID_START") in head and ("chr", "_") in head, prefix, "G5|macro_name-head", "G5: a name starts with XID_START or `_`", W)
-        ctx.check("XID_CONTINUE" in g.idents(g.expr("macro_name")), prefix, "G5|macro_name-tail", "G5: a name continues with XID_CONTINUE", W)
+        ctx.check("XID_CONTINUE" in g.idents(g.inline(g.expr("macro_name"))), prefix, "G5|macro_name-tail", "G5: a name continues with XID_CONTINUE", W)
 
 
 def g6_modifiers(ctx, g, prefix):
